@@ -40,7 +40,7 @@ Theorem C08_install_stopped_good : forall clean s, Good s ->
   Good (exec (expand (HRecoverStop clean) s) (bump (HRecoverStop clean) s)).
 Proof. intros clean s H. exact (proj2 (hop_safe_good (HRecoverStop clean) s H)). Qed.
 
-(* readers (specification; the implementation deviates, see KNOWN_FINDINGS.json): a read delivers the state it
+(* readers (specification; for a sequence that is half consumed when the install happens the implementation deviates, see KNOWN_FINDINGS.json): a read delivers the state it
    started on or fails, and a read started after the install sees the new state *)
 Theorem C08_reader_old_or_fail : forall (S : Type) (r r' : rep S) (rd : reader S) v,
   rd = read_start S r -> read_next S r' rd = Some v -> v = r_store S r /\ r_gen S r' = r_gen S r.
@@ -50,6 +50,12 @@ Theorem C08_reader_after_install : forall (S : Type) (r : rep S) s,
   read_next S (install S r s) (read_start S (install S r s)) = Some s.
 Proof. intros S r s. split; [exact (reader_after_install S r s)|exact (reader_new_after_install S r s)]. Qed.
 Print Assumptions C08_reader_after_install.
+(* a sequence handed out before an install and consumed only after it delivers the NEW content (repaired code,
+   KNOWN_FINDINGS F-C08-lazy-read-after-install: it used to open its iterator on the closed old DB and panic) *)
+Theorem C08_lazy_sequence_after_install : forall (S : Type) (r : rep S) (s : S),
+  lazy_consume S (install S r s) = Some s /\ lazy_consume S r = Some (r_store S r).
+Proof. intros S r s. split; [exact (lazy_after_install S r s)|exact (lazy_consume_current S r)]. Qed.
+Print Assumptions C08_lazy_sequence_after_install.
 
 (* non-vacuity: an install of 5 batches over a table holding 2 (1 synced), cut after 9 steps and after 3 steps *)
 Example C08_example :
